@@ -1,7 +1,10 @@
 //! The [`Circuit`] representation used by the compiler.
 
 use crate::{compile::wires_as_unsigned, env::Env, token::MetaInfo};
+#[cfg(not(feature = "verif_hooks"))]
 use std::{collections::HashMap, mem};
+#[cfg(feature = "verif_hooks")]
+use {crate::verif_hooks::HashMap, std::mem};
 
 #[cfg(feature = "serde")]
 use serde::{Deserialize, Serialize};
